@@ -421,6 +421,8 @@ def inline_call(ex, st, fi, env, node):
     ex.inlined.add(fi.qualname)
     ex.call_stack.append((fi.qualname, getattr(node, "lineno", None)))
     ex.cur_owner.append(fi.cls)
+    ic = ex.S.contracts.get(fi.qualname)
+    ex.contract_stack.append(ic if ic is not None else (ex.contract_stack[-1] if ex.contract_stack else None))
     saved_env = st.env
     st.env = env
     # coerce parameters declared in the contract's `types`
@@ -434,6 +436,7 @@ def inline_call(ex, st, fi, env, node):
     finally:
         ex.call_stack.pop()
         ex.cur_owner.pop()
+        ex.contract_stack.pop()
     out = []
     for s, oc in results:
         s.env = saved_env
@@ -449,8 +452,12 @@ def inline_call(ex, st, fi, env, node):
 
 
 def retype(ex, st, sv, ty):
+    if sv.k == "ref" and ty.kind == "list" and ty.name == "Any" and sv.h is not None and sv.h.kind == "list":
+        return sv       # keep the more specific list kind (element typing)
     if sv.k == ty.sort() or (sv.k == "ref" and ty.sort() == "ref"):
-        return SV(sv.k, sv.t, ty)
+        r = SV(sv.k, sv.t, ty)
+        r.fresh = sv.fresh
+        return r
     if sv.k == "val":
         return ex.from_val(sv.t, ty) if ty.sort() != "val" else SV("val", sv.t, ty)
     return sv
@@ -569,6 +576,21 @@ def apply_contract(ex, st, fi, c, env, node):
         return outs
     if c.assumed:
         ex.assumed_used.add(c.target)
+    cur = ex.contract_stack[-1] if ex.contract_stack else None
+    st.known["$calls"] = dict(st.known.get("$calls", {}))
+    st.known["$calls"][fi.name] = st.known["$calls"].get(fi.name, 0) + 1
+    if cur is not None:
+        for key in (c.target, fi.name):
+            for text in cur.call_assumes.get(key, []):
+                ex.assumed_used.add(f"assumed before the call to {c.target} in {cur.target}: {text}")
+                st.assume(spec_eval(ex, st, dict(env), text))
+            if not ex.call_stack:        # checkpoints belong to the unit itself, not to inlined callees
+                for item in cur.at_call.get(key, []):
+                    lab, text = item if isinstance(item, tuple) else (f"at-call-{key}", item)
+                    e2 = dict(ex.entry_env)
+                    e2.update({k: v for k, v in ex.unit_env_view(st).items()})
+                    g = spec_eval(ex, st, e2, text, old=ex.entry_old)
+                    ex.oblige(st, "at-call", f"{lab}", node, g)
     # parameter typing from the contract
     for p, tys in c.types.items():
         if p in env:
